@@ -62,9 +62,20 @@ def _tinfo(b):
     return _TINFO[b]
 
 
+_RACE = [None]
+
+
+def _race():
+    from . import _threads as T
+    if _RACE[0] is None:
+        _RACE[0] = T.RaceFamily(TBASES)
+    return _RACE[0]
+
+
 def plan(tier):
     return [('seeded', 12000 if tier == 'quick' else 250000),
             ('threaded_sweep', len(TBASES) * TSLOT * 2),
+            ('threaded_race', _race().size(tier)),
             ('threaded_random', 300 if tier == 'quick' else 30000),
             ('pair', 800 if tier == 'quick' else 30000),
             ('two_sessions', 200 if tier == 'quick' else 10000),
@@ -76,10 +87,14 @@ def _ping(rng):
     return {'kind': 'ping', 'hex': S.rand_bytes(rng, n).hex()}
 
 
-def _threaded_case(family, i, rng):
+def _threaded_case(family, i, rng, tier='quick'):
     import copy
     from . import _threads as T
-    if family == 'threaded_sweep':
+    if family == 'threaded_race':
+        # sets of pre-emption sites among the points where the threads touch
+        # the same field (see _threads.race_candidates)
+        case = _race().case(i, tier)
+    elif family == 'threaded_sweep':
         senders_first = i >= len(TBASES) * TSLOT
         i %= len(TBASES) * TSLOT
         b = i // TSLOT
@@ -162,7 +177,7 @@ def _execute_threaded(case):
 
 def make_case(family, i, rng, tier):
     if family.startswith('threaded'):
-        return _threaded_case(family, i, rng)
+        return _threaded_case(family, i, rng, tier)
     if family == 'two_sessions':
         # ThreadSim, two WebSocket objects with their own event-loop threads:
         # a send on one is stuck in sendall while the other receives a Ping
